@@ -421,12 +421,19 @@ def check(pid, tier):
         if not hname or not os.path.exists(os.path.join(ROOT, "harness", hname + ".cpp")):
             continue
         variant = "asan"
+        uenv = {}
         for u in prop["units"]:
             if u["harness"] == hname:
                 variant = u.get("variant", "asan")
+                uenv = dict(u.get("env", {}))
         exe = build(hname, variant)
         env = sanitizer_env()
         env["VF_KNOWN"] = "\n".join(known_keys)
+        for k, v in uenv.items():   # replays run under the unit's own environment
+            if k == "ASAN_OPTIONS_EXTRA":
+                env["ASAN_OPTIONS"] += ":" + str(v)
+            else:
+                env[k] = str(v)
         code, out = run_replay(exe, rp, env=env)
         nrep += 1
         if code == 0:
